@@ -221,6 +221,57 @@ def check_pool(chk, quick):
                 break
 
 
+def check_reload(chk):
+    """a sample set the library hands back after a save / load cycle still pairs every row with its own log-densities, also when the
+    declared parameter order is not the alphabetical one (HDF5 lists members alphabetically)"""
+    import tempfile
+
+    import h5py
+
+    from aspire.samples import Samples, SMCSamples
+
+    tmp = tempfile.mkdtemp(prefix="aspire_verif_")
+    try:
+        for j, (names, K) in enumerate(((["mass", "distance"], Samples), (["zeta", "alpha", "mu"], SMCSamples),
+                                        ([f"x_{k}" for k in range(12)], Samples))):
+            d = len(names)
+            rr = np.random.default_rng(77 + j)
+            x = rr.normal(0, 1, (9, d)) * np.arange(1, d + 1)
+            like = lambda v: -0.5 * np.sum((v - np.arange(d)) ** 2 / (1 + np.arange(d)), axis=-1)
+            prior = lambda v: -np.sum(np.abs(v) / (2 + np.arange(d)), axis=-1)
+            q = lambda v: -0.5 * np.sum(v ** 2, axis=-1)
+            kw = dict(x=x, parameters=list(names), log_likelihood=like(x), log_prior=prior(x), log_q=q(x))
+            if K is SMCSamples:
+                kw["beta"] = 0.5
+            s = K(**kw)
+            case = {"level": "reload", "cls": K.__name__, "parameters": names[:4]}
+            chk.count("reload_sets")
+            chk.case(None, json.dumps(case))
+            for flat in (False, True):
+                p = f"{tmp}/s{j}{int(flat)}.h5"
+                try:
+                    with h5py.File(p, "w") as f:
+                        s.save(f, "samples", flat=flat)
+                    with h5py.File(p, "r") as f:
+                        t = K.load(f, "samples")
+                except Exception as e:   # noqa
+                    chk.fail("run total", dict(case, flat=flat), repr(e)[:200], {"clause": "raise", "level": "reload"})
+                    continue
+                xt = ns.to_np(t.x)
+                for fname, fn in (("log_likelihood", like), ("log_prior", prior), ("log_q", q)):
+                    got = ns.to_np(getattr(t, fname))
+                    if xt.shape != x.shape or not np.allclose(got, fn(xt), rtol=1e-9, atol=1e-9):
+                        chk.fail("stored log-densities are L, pi, q at the row's coordinates", dict(case, flat=flat),
+                                 f"after save/load ({'flat' if flat else 'nested'} layout) with parameters {names[:4]}: {fname} of row 0 is {got[0]!r}, "
+                                 f"the function at the reloaded coordinates gives {fn(xt)[0] if xt.shape == x.shape else None!r}",
+                                 {"clause": "coherent", "level": "reload", "field": fname})
+                        break
+    finally:
+        import shutil
+
+        shutil.rmtree(tmp, ignore_errors=True)
+
+
 def run(chk: core.Check):
     r = np.random.default_rng(chk.seed + 10010)
     quick = chk.tier == "quick"
@@ -233,6 +284,7 @@ def run(chk: core.Check):
     for i in range(60 if quick else 1200):
         check_run(chk, gen_cfg(r, i), lines, keep)
     check_pool(chk, quick)
+    check_reload(chk)
     for (case, ix, ilq, ilp), rep in zip(keep, drv.batch(lines)):
         if not rep.ok:
             raise core.HarnessError(rep.err)
